@@ -88,11 +88,15 @@ class PathModel:
                 vals[k] = self.to_path_value(k, fields[k], tname)
             elif k in self.defaults:
                 vals[k] = self.defaults[k]
+            elif k in fields:
+                vals[k] = ""         # an empty value is a value (representable inside a file name)
             else:
                 return None
         out = t.render(vals)
         if t.parse(out) is None:
             return None          # a value outside this configuration's vocabulary: the Sid has no path here
+        if any(comp in ("", ".", "..") for comp in out.split("/")[1:]):
+            return None          # an empty, "." or ".." value cannot be a folder name: no path represents this Sid
         return out
 
     def rel(self, path):
